@@ -660,6 +660,7 @@ func (b *BaseStore) Sync(ctx context.Context, heads []ipfslog.Entry) error {
 		span.AddEvent("store-sync-head-verified")
 	}
 
+	verifhook.Point("store.sync_spawn", b.id)
 	go b.Replicator().Load(ctx, heads)
 
 	return nil
